@@ -321,28 +321,43 @@ Proof.
   intros H. inversion H; subst; simpl. auto.
 Qed.
 
-Lemma set_position_wf b p : bc_wf b -> bc_wf (set_position b p).
+(* the condition on boundary bd, with position p, made from condition i: same sides, same
+   order / variable / normal flag / components *)
+Definition rebuilt (i : ebc) (p : nat) (bd : bnd) : ebc :=
+  mkBC (b_lhs i) (b_rhs i) bd (b_attrs i) (Some p).
+
+(* re-building a condition from its own lhs and components preserves every attribute:
+   for every admitted shape (bc_wf holds of every object the constructor makes) *)
+Lemma rebuild_spec i bd p : bc_wf i -> rebuild i bd p = Ok (rebuilt i p bd).
+Proof. intros Hwf. unfold rebuild, essential_new. unfold bc_wf in Hwf. now rewrite Hwf. Qed.
+
+Lemma rebuilt_wf i p bd : bc_wf i -> bc_wf (rebuilt i p bd).
 Proof. auto. Qed.
 
-(* the condition on face j made from condition i *)
-Definition on_face (i : ebc) (j : face) : ebc := mkBC (b_lhs i) (b_rhs i) (BFace j) (b_attrs i) (b_pos i).
-
-Lemma expand_spec i faces : bc_wf i -> expand i faces = Ok (map (on_face i) faces).
+Lemma expand_spec i p faces : bc_wf i ->
+  expand i p faces = Ok (map (fun j => rebuilt i p (BFace j)) faces).
 Proof.
   intros Hwf. induction faces as [|j r IH]; simpl; [reflexivity|].
-  unfold essential_new. unfold bc_wf in Hwf. rewrite Hwf. rewrite IH. reflexivity.
+  rewrite rebuild_spec by auto. rewrite IH. reflexivity.
+Qed.
+
+(* the boundaries of the conditions that one given condition becomes *)
+Definition pieces (b : bnd) : list bnd :=
+  match b with BUnion l => map BFace l | bd => [bd] end.
+
+Lemma contribution_spec i p : bc_wf i ->
+  contribution i p = Ok (map (rebuilt i p) (pieces (b_bnd i))).
+Proof.
+  intros Hwf. unfold contribution, pieces. destruct (b_bnd i) as [|f|l].
+  - now rewrite rebuild_spec.
+  - now rewrite rebuild_spec.
+  - rewrite expand_spec by auto. now rewrite map_map.
 Qed.
 
 (* ============================================================== normalisation *)
-Definition faces_of (b : bnd) : option (list face) := match b with BUnion l => Some l | _ => None end.
-
 (* what one given condition contributes to eq.bc *)
 Definition block (trials : list fn) (i : ebc) : list ebc :=
-  let i' := set_position i (index_fn (var i) trials) in
-  match b_bnd i with
-  | BUnion l => map (on_face i') l
-  | _ => [i']
-  end.
+  map (rebuilt i (index_fn (var i) trials)) (pieces (b_bnd i)).
 
 Definition on_trial (trials : list fn) (i : ebc) : Prop := mem_fn (var i) trials = true.
 
@@ -353,9 +368,7 @@ Proof.
   induction bcs as [|i r IH]; intros Hwf Hon; simpl; [reflexivity|].
   inversion Hwf as [|? ? Hi Hr]; inversion Hon as [|? ? Oi Or]; subst.
   unfold on_trial, var in Oi. rewrite Oi. simpl.
-  rewrite (IH Hr Or). unfold block, var.
-  destruct (b_bnd i) as [|f|l]; simpl; try reflexivity.
-  rewrite expand_spec by (now apply set_position_wf). reflexivity.
+  rewrite contribution_spec by auto. rewrite (IH Hr Or). reflexivity.
 Qed.
 
 (* a condition on a function that is not a trial function makes the constructor refuse *)
@@ -368,9 +381,7 @@ Proof.
   destruct (mem_fn (a_var (b_attrs i)) trials) eqn:M; simpl; [|reflexivity].
   assert (Hex' : Exists (fun i => mem_fn (var i) trials = false) r).
   { inversion Hex; subst; auto. unfold var in *. congruence. }
-  rewrite (IH Hr Hex').
-  destruct (b_bnd i) as [|f|l]; simpl; try reflexivity.
-  rewrite expand_spec by (now apply set_position_wf). reflexivity.
+  rewrite (IH Hr Hex'). rewrite contribution_spec by auto. reflexivity.
 Qed.
 
 Lemma Forall_or_Exists {A} (P : A -> bool) l :
@@ -418,19 +429,29 @@ Theorem block_union trials i l : b_bnd i = BUnion l ->
     nth_error (block trials i) k =
       Some (mkBC (b_lhs i) (b_rhs i) (BFace j) (b_attrs i) (Some (index_fn (var i) trials))).
 Proof.
-  intros Hb. unfold block. rewrite Hb. split; [apply map_length|].
-  intros k j Hk. rewrite nth_error_map, Hk. reflexivity.
+  intros Hb. unfold block. rewrite Hb. simpl. split; [now rewrite !map_length|].
+  intros k j Hk. rewrite map_map, nth_error_map, Hk. reflexivity.
 Qed.
 
-(* a condition on a single face is kept (only its position is set) *)
+(* a condition on a single face becomes one condition on that face: the same sides, order,
+   variable, normal flag and components, and the position *)
 Theorem block_face trials i f : b_bnd i = BFace f ->
   block trials i = [mkBC (b_lhs i) (b_rhs i) (BFace f) (b_attrs i) (Some (index_fn (var i) trials))].
-Proof. intros Hb. unfold block. rewrite Hb. unfold set_position. now rewrite Hb. Qed.
+Proof. intros Hb. unfold block. rewrite Hb. reflexivity. Qed.
+
+Theorem normalise_single_face trials i f :
+  bc_wf i -> on_trial trials i -> b_bnd i = BFace f ->
+  normalise trials [i] =
+    Ok [mkBC (b_lhs i) (b_rhs i) (BFace f) (b_attrs i) (Some (index_fn (var i) trials))].
+Proof.
+  intros Hwf Hon Hb. rewrite normalise_spec by (constructor; auto).
+  simpl. rewrite app_nil_r. now rewrite (block_face trials i f Hb).
+Qed.
 
 Definition nfaces (b : ebc) : nat := match b_bnd b with BUnion l => length l | _ => 1 end.
 
 Lemma block_length trials i : length (block trials i) = nfaces i.
-Proof. unfold block, nfaces. destruct (b_bnd i); simpl; auto. apply map_length. Qed.
+Proof. unfold block, nfaces, pieces. destruct (b_bnd i); simpl; auto. now rewrite !map_length. Qed.
 
 Theorem normalise_length trials bcs out :
   Forall bc_wf bcs -> normalise trials bcs = Ok out ->
@@ -457,10 +478,10 @@ Proof.
   assert (Hon : Forall (on_trial trials) bcs) by (apply normalise_accepts_iff; eauto).
   rewrite normalise_spec in H by auto. inversion H; subst.
   apply in_flat_map in Hin. destruct Hin as [i [Hi Ho]]. exists i. split; auto.
-  unfold block in Ho. destruct (b_bnd i) as [|f|l] eqn:Hb.
-  - destruct Ho as [<-|[]]. simpl. rewrite Hb. auto.
-  - destruct Ho as [<-|[]]. simpl. rewrite Hb. auto.
-  - apply in_map_iff in Ho. destruct Ho as [j [<- Hj]]. simpl. eauto 10.
+  unfold block, pieces in Ho. destruct (b_bnd i) as [|f|l] eqn:Hb.
+  - destruct Ho as [<-|[]]. simpl. auto.
+  - destruct Ho as [<-|[]]. simpl. auto.
+  - rewrite map_map in Ho. apply in_map_iff in Ho. destruct Ho as [j [<- Hj]]. simpl. eauto 10.
 Qed.
 
 (* no face is forgotten *)
@@ -476,12 +497,10 @@ Proof.
   assert (Hon : Forall (on_trial trials) bcs) by (apply normalise_accepts_iff; eauto).
   rewrite normalise_spec in H by auto. inversion H; subst.
   destruct (b_bnd i) as [|f|l] eqn:Hb.
-  - apply in_flat_map. exists i. split; auto. unfold block. rewrite Hb. left.
-    unfold set_position. now rewrite Hb.
-  - apply in_flat_map. exists i. split; auto. unfold block. rewrite Hb. left.
-    unfold set_position. now rewrite Hb.
-  - intros j Hj. apply in_flat_map. exists i. split; auto. unfold block. rewrite Hb.
-    apply in_map_iff. exists j. split; auto.
+  - apply in_flat_map. exists i. split; auto. unfold block. rewrite Hb. now left.
+  - apply in_flat_map. exists i. split; auto. unfold block. rewrite Hb. now left.
+  - intros j Hj. apply in_flat_map. exists i. split; auto. unfold block. rewrite Hb. simpl.
+    rewrite map_map. apply in_map_iff. exists j. split; auto.
 Qed.
 
 (* position = index of the first trial function that is == the variable *)
@@ -535,7 +554,7 @@ Proof.
   assert (Hb : mk_bnd raw = BUnion l).
   { rewrite Hp. destruct l as [|x [|y r]]; simpl in *; auto; lia. }
   rewrite normalise_spec.
-  - simpl. rewrite app_nil_r. unfold block, var. simpl. rewrite Hb. reflexivity.
+  - simpl. rewrite app_nil_r. unfold block, var. simpl. rewrite Hb. simpl. now rewrite map_map.
   - constructor; [|constructor]. unfold bc_wf. simpl. now apply classify_idem in Ha.
   - constructor; [|constructor]. exact Hm.
 Qed.
@@ -562,42 +581,6 @@ Qed.
 
 (* ======================================================= object (store) semantics *)
 Definition get (h : store) (r : nat) : ebc := nth r h dummy_bc.
-Definition forget (b : ebc) : ebc := mkBC (b_lhs b) (b_rhs b) (b_bnd b) (b_attrs b) None.
-(* the position attribute already is the index of the variable among [trials] *)
-Definition stable (trials : list fn) (b : ebc) : Prop := b_pos b = Some (index_fn (var b) trials).
-
-Lemma set_position_forget a b p : forget a = forget b -> set_position a p = set_position b p.
-Proof. destruct a, b; unfold forget, set_position; simpl. intros H; inversion H; reflexivity. Qed.
-
-Lemma forget_set_position b p : forget (set_position b p) = forget b.
-Proof. reflexivity. Qed.
-
-Lemma set_position_stable trials b : stable trials b -> set_position b (index_fn (var b) trials) = b.
-Proof. destruct b; unfold stable, set_position, var; simpl. intros ->. reflexivity. Qed.
-
-(* the value of normalise does not look at the positions the conditions come with *)
-Lemma normalise_forget trials : forall l l',
-  map forget l = map forget l' -> normalise trials l = normalise trials l'.
-Proof.
-  induction l as [|i r IH]; intros [|i' r'] H; simpl in H; try discriminate; [reflexivity|].
-  pose proof (f_equal (hd dummy_bc) H) as Hi. pose proof (f_equal (@tl _) H) as Hr.
-  simpl in Hi, Hr. simpl.
-  assert (Ha : b_attrs i = b_attrs i') by (apply (f_equal b_attrs) in Hi; exact Hi).
-  rewrite Ha. destruct (negb (mem_fn (a_var (b_attrs i')) trials)); [reflexivity|].
-  assert (Hb : b_bnd i = b_bnd i') by (apply (f_equal b_bnd) in Hi; exact Hi).
-  rewrite (set_position_forget i i' _ Hi). rewrite (IH r' Hr), Hb. reflexivity.
-Qed.
-
-Lemma set_nth_length {A} k (v : A) l : length (set_nth k v l) = length l.
-Proof. revert k. induction l as [|x r IH]; intros [|k]; simpl; auto. Qed.
-
-Lemma nth_error_set_nth_eq {A} k (v : A) l : k < length l -> nth_error (set_nth k v l) k = Some v.
-Proof. revert k. induction l as [|x r IH]; intros [|k] H; simpl in *; try lia; auto. apply IH. lia. Qed.
-
-Lemma nth_error_set_nth_neq {A} k k' (v : A) l : k <> k' -> nth_error (set_nth k v l) k' = nth_error l k'.
-Proof.
-  revert k k'. induction l as [|x r IH]; intros [|k] [|k'] H; simpl; auto; try congruence.
-Qed.
 
 Lemma fst_map_ok g x : fst (map_ok g x) = fst x.
 Proof. destruct x as [h [o|e]]; reflexivity. Qed.
@@ -605,45 +588,25 @@ Proof. destruct x as [h [o|e]]; reflexivity. Qed.
 Lemma nth_error_get h r : r < length h -> nth_error h r = Some (get h r).
 Proof. intros H. unfold get. now apply nth_error_nth'. Qed.
 
-(* the store only grows *)
-Lemma eq_loop_length trials refs : forall h, length h <= length (fst (eq_loop trials h refs)).
+(* the constructor only appends to the store: it never writes into an existing object *)
+Lemma eq_loop_extends trials refs : forall h, exists ext, fst (eq_loop trials h refs) = h ++ ext.
 Proof.
-  induction refs as [|r rest IH]; intros h; simpl; [lia|].
-  destruct (nth_error h r) as [i|]; simpl; [|lia].
-  destruct (negb (mem_fn (a_var (b_attrs i)) trials)); simpl; [lia|].
-  destruct (b_bnd i) as [|f|l].
-  - rewrite fst_map_ok. etransitivity; [|apply IH]. now rewrite set_nth_length.
-  - rewrite fst_map_ok. etransitivity; [|apply IH]. now rewrite set_nth_length.
-  - destruct (expand _ l) as [blk|e]; simpl; [|now rewrite set_nth_length].
-    rewrite fst_map_ok. etransitivity; [|apply IH]. rewrite app_length, set_nth_length. lia.
+  induction refs as [|r rest IH]; intros h; simpl; [exists []; now rewrite app_nil_r|].
+  destruct (nth_error h r) as [i|]; simpl; [|exists []; now rewrite app_nil_r].
+  destruct (negb (mem_fn (a_var (b_attrs i)) trials)); simpl; [exists []; now rewrite app_nil_r|].
+  destruct (contribution i _) as [blk|e]; simpl; [|exists []; now rewrite app_nil_r].
+  rewrite fst_map_ok. destruct (IH (h ++ blk)) as [ext E]. exists (blk ++ ext). now rewrite E, app_assoc.
 Qed.
 
-(* an object keeps its value through the loop if the loop is not given it, or if its
-   position already is the one the loop would write *)
-Lemma eq_loop_preserve trials refs : forall h k b,
-  nth_error h k = Some b -> (~ In k refs \/ stable trials b) ->
-  nth_error (fst (eq_loop trials h refs)) k = Some b.
+Lemma eq_loop_preserve trials refs h k b :
+  nth_error h k = Some b -> nth_error (fst (eq_loop trials h refs)) k = Some b.
 Proof.
-  induction refs as [|r rest IH]; intros h k b Hk Hc; simpl; [exact Hk|].
-  destruct (nth_error h r) as [i|] eqn:Hr; simpl; [|exact Hk].
-  destruct (negb (mem_fn (a_var (b_attrs i)) trials)); simpl; [exact Hk|].
-  set (i' := set_position i (index_fn (a_var (b_attrs i)) trials)).
-  assert (K1 : nth_error (set_nth r i' h) k = Some b).
-  { destruct (Nat.eq_dec r k) as [->|Hne].
-    - rewrite Hk in Hr. inversion Hr; subst i.
-      destruct Hc as [Hc|Hc]; [exfalso; apply Hc; now left|].
-      rewrite nth_error_set_nth_eq by (apply nth_error_Some; congruence).
-      unfold i'. fold (var b). now rewrite set_position_stable.
-    - now rewrite nth_error_set_nth_neq. }
-  assert (Hc' : ~ In k rest \/ stable trials b).
-  { destruct Hc as [Hc|Hc]; auto. left. intros H. apply Hc. now right. }
-  destruct (b_bnd i) as [|f|l].
-  - rewrite fst_map_ok. apply IH; auto.
-  - rewrite fst_map_ok. apply IH; auto.
-  - destruct (expand _ l) as [blk|e]; simpl; [|exact K1].
-    rewrite fst_map_ok. apply IH; auto.
-    rewrite nth_error_app1; auto. apply nth_error_Some. congruence.
+  intros Hk. destruct (eq_loop_extends trials refs h) as [ext ->].
+  rewrite nth_error_app1; auto. apply nth_error_Some. congruence.
 Qed.
+
+Lemma eq_loop_length trials refs h : length h <= length (fst (eq_loop trials h refs)).
+Proof. destruct (eq_loop_extends trials refs h) as [ext ->]. rewrite app_length. lia. Qed.
 
 Lemma read_seq h2 : forall blk a,
   (forall j b, nth_error blk j = Some b -> nth_error h2 (a + j) = Some b) ->
@@ -658,39 +621,22 @@ Qed.
 Lemma read_app h l1 l2 : read h (l1 ++ l2) = read h l1 ++ read h l2.
 Proof. apply map_app. Qed.
 
-Lemma map_get_forget h h' refs :
-  (forall r, In r refs -> forget (get h' r) = forget (get h r)) ->
-  map forget (map (get h') refs) = map forget (map (get h) refs).
+Lemma map_get_app h blk refs :
+  Forall (fun r => r < length h) refs -> map (get (h ++ blk)) refs = map (get h) refs.
 Proof.
-  induction refs as [|r rest IH]; intros H; simpl; [reflexivity|].
-  f_equal; [apply H; now left|apply IH; intros; apply H; now right].
+  intros H. apply map_ext_in. intros r Hr. rewrite Forall_forall in H. unfold get.
+  now rewrite app_nth1 by (now apply H).
 Qed.
 
-Lemma get_set_nth_forget h r i p k : nth_error h r = Some i ->
-  forget (get (set_nth r (set_position i p) h) k) = forget (get h k).
-Proof.
-  intros Hr. unfold get. destruct (Nat.eq_dec r k) as [->|Hne].
-  - assert (L : k < length h) by (apply nth_error_Some; congruence).
-    rewrite (nth_error_nth (set_nth k (set_position i p) h) k dummy_bc (nth_error_set_nth_eq k _ h L)).
-    rewrite (nth_error_nth h k dummy_bc Hr). reflexivity.
-  - destruct (nth_error h k) as [b|] eqn:Hk.
-    + rewrite (nth_error_nth h k dummy_bc Hk).
-      assert (Hk' : nth_error (set_nth r (set_position i p) h) k = Some b)
-        by now rewrite nth_error_set_nth_neq.
-      now rewrite (nth_error_nth _ k dummy_bc Hk').
-    + rewrite (nth_overflow h) by (now apply nth_error_None).
-      rewrite nth_overflow; [reflexivity|]. rewrite set_nth_length. now apply nth_error_None.
-Qed.
-
-(* The loop on objects computes [normalise] of the values the objects have when the
-   constructor is called: same verdict (same error), and eq.bc read in the store the
-   constructor leaves behind is the normalised list.  For lists of any length, with
-   repetitions of one object allowed. *)
+(* The loop on objects computes [normalise] of the values of the given objects: same
+   verdict (same error); eq.bc read in the store the constructor leaves behind is the
+   normalised list; and every condition of eq.bc is a new object (its index is beyond the
+   store the constructor was called with).  Lists of any length, repetitions allowed. *)
 Theorem eq_loop_normalise trials refs : forall h,
   Forall (fun r => r < length h) refs ->
   match normalise trials (map (get h) refs) with
   | Ok vals => exists h2 out, eq_loop trials h refs = (h2, Ok out) /\ read h2 out = map Some vals /\
-                              Forall (fun r => r < length h2) out
+                              Forall (fun r => length h <= r < length h2) out
   | Err e => snd (eq_loop trials h refs) = Err e
   end.
 Proof.
@@ -700,67 +646,24 @@ Proof.
     cbn [map normalise eq_loop]. rewrite (nth_error_get h r Hr).
     set (i := get h r).
     destruct (negb (mem_fn (a_var (b_attrs i)) trials)) eqn:M; [reflexivity|].
-    cbv zeta.
-    set (p := index_fn (a_var (b_attrs i)) trials).
-    set (i' := set_position i p). set (h1 := set_nth r i' h).
-    assert (L1 : length h1 = length h) by apply set_nth_length.
-    assert (Hst : stable trials i') by reflexivity.
-    assert (F1 : forall k, forget (get h1 k) = forget (get h k)).
-    { intros k. apply get_set_nth_forget. now apply nth_error_get. }
-    replace (b_bnd i') with (b_bnd i) by reflexivity.
-    destruct (b_bnd i) as [|f|l] eqn:Hb.
-    + (* not a union: the same object *)
-      specialize (IH h1). rewrite L1 in IH. specialize (IH Hrest).
-      rewrite (normalise_forget trials (map (get h1) rest) (map (get h) rest)) in IH
-        by (apply map_get_forget; intros; apply F1).
-      destruct (normalise trials (map (get h) rest)) as [vals|e].
-      * destruct IH as (h2 & out & E & R & V). rewrite E. simpl.
-        exists h2, (r :: out). split; [reflexivity|]. split.
-        -- unfold read in *. simpl. f_equal; [|exact R].
-           replace h2 with (fst (eq_loop trials h1 rest)) by now rewrite E.
-           apply eq_loop_preserve; [|now right].
-           unfold h1. apply nth_error_set_nth_eq. exact Hr.
-        -- constructor; [|exact V].
-           replace h2 with (fst (eq_loop trials h1 rest)) by now rewrite E.
-           eapply Nat.lt_le_trans; [|apply eq_loop_length]. now rewrite L1.
-      * destruct (eq_loop trials h1 rest) as [h2 [o|e']]; simpl in *; congruence.
-    + specialize (IH h1). rewrite L1 in IH. specialize (IH Hrest).
-      rewrite (normalise_forget trials (map (get h1) rest) (map (get h) rest)) in IH
-        by (apply map_get_forget; intros; apply F1).
-      destruct (normalise trials (map (get h) rest)) as [vals|e].
-      * destruct IH as (h2 & out & E & R & V). rewrite E. simpl.
-        exists h2, (r :: out). split; [reflexivity|]. split.
-        -- unfold read in *. simpl. f_equal; [|exact R].
-           replace h2 with (fst (eq_loop trials h1 rest)) by now rewrite E.
-           apply eq_loop_preserve; [|now right].
-           unfold h1. apply nth_error_set_nth_eq. exact Hr.
-        -- constructor; [|exact V].
-           replace h2 with (fst (eq_loop trials h1 rest)) by now rewrite E.
-           eapply Nat.lt_le_trans; [|apply eq_loop_length]. now rewrite L1.
-      * destruct (eq_loop trials h1 rest) as [h2 [o|e']]; simpl in *; congruence.
-    + (* a union: new objects *)
-      destruct (expand i' l) as [blk|e]; [|reflexivity].
-      specialize (IH (h1 ++ blk)).
-      assert (Hrest' : Forall (fun r => r < length (h1 ++ blk)) rest).
-      { eapply Forall_impl; [|exact Hrest]. intros a Ha. rewrite app_length, L1. simpl in Ha. lia. }
-      specialize (IH Hrest').
-      rewrite (normalise_forget trials (map (get (h1 ++ blk)) rest) (map (get h) rest)) in IH.
-      2:{ apply map_get_forget. intros k Hk. rewrite <- F1. unfold get. rewrite app_nth1; auto.
-          rewrite L1. rewrite Forall_forall in Hrest. now apply Hrest. }
-      destruct (normalise trials (map (get h) rest)) as [vals|e].
-      * destruct IH as (h2 & out & E & R & V). rewrite E. simpl.
-        exists h2, (seq (length h1) (length blk) ++ out). split; [reflexivity|]. split.
-        -- rewrite read_app, map_app. f_equal; [|exact R].
-           apply read_seq. intros j b Hj.
-           replace h2 with (fst (eq_loop trials (h1 ++ blk) rest)) by now rewrite E.
-           apply eq_loop_preserve.
-           ++ rewrite nth_error_app2 by lia. now replace (length h1 + j - length h1) with j by lia.
-           ++ left. intros Hin. rewrite Forall_forall in Hrest. specialize (Hrest _ Hin). simpl in Hrest. lia.
-        -- apply Forall_app. split; [|exact V].
-           apply Forall_forall. intros x Hx. apply in_seq in Hx.
-           replace h2 with (fst (eq_loop trials (h1 ++ blk) rest)) by now rewrite E.
-           eapply Nat.lt_le_trans; [|apply eq_loop_length]. rewrite app_length. lia.
-      * destruct (eq_loop trials (h1 ++ blk) rest) as [h2 [o|e']]; simpl in *; congruence.
+    cbv zeta. set (p := index_fn (a_var (b_attrs i)) trials).
+    destruct (contribution i p) as [blk|e]; [|reflexivity].
+    specialize (IH (h ++ blk)).
+    assert (Hrest' : Forall (fun r => r < length (h ++ blk)) rest).
+    { eapply Forall_impl; [|exact Hrest]. intros a Ha. rewrite app_length. simpl in Ha. lia. }
+    specialize (IH Hrest'). rewrite (map_get_app h blk rest Hrest) in IH.
+    destruct (normalise trials (map (get h) rest)) as [vals|e].
+    + destruct IH as (h2 & out & E & R & V). rewrite E. simpl.
+      assert (E2 : h2 = fst (eq_loop trials (h ++ blk) rest)) by now rewrite E.
+      exists h2, (seq (length h) (length blk) ++ out). split; [reflexivity|]. split.
+      * rewrite read_app, map_app. f_equal; [|exact R].
+        apply read_seq. intros j b Hj. rewrite E2. apply eq_loop_preserve.
+        rewrite nth_error_app2 by lia. now replace (length h + j - length h) with j by lia.
+      * apply Forall_app. split.
+        -- apply Forall_forall. intros x Hx. apply in_seq in Hx. split; [lia|].
+           rewrite E2. eapply Nat.lt_le_trans; [|apply eq_loop_length]. rewrite app_length. lia.
+        -- eapply Forall_impl; [|exact V]. intros x [Hx1 Hx2]. rewrite app_length in Hx1. simpl. lia.
+    + destruct (eq_loop trials (h ++ blk) rest) as [h2 [o|e']]; simpl in *; congruence.
 Qed.
 
 (* ---------------------------------------------------------------- Equation.__new__ *)
@@ -807,12 +710,14 @@ Proof.
   now rewrite E.
 Qed.
 
-(* the constructor on a list of condition objects = normalise on their values *)
+(* the constructor on a list of condition objects = normalise on their values, and every
+   condition it keeps is a new object *)
 Theorem equation_new_normalises h a l trials tests refs :
   Forall (fun r => r < length h) refs ->
   let r := equation_new h (FBilinear a) (FLinear l) trials tests (AList (map IRef refs)) in
   match normalise trials (map (get h) refs) with
   | Ok vals => exists e out, snd r = Ok e /\ eq_bc e = Some out /\ read (fst r) out = map Some vals /\
+                             Forall (fun k => length h <= k < length (fst r)) out /\
                              eq_lhs e = FBilinear a /\ eq_rhs e = FLinear l /\
                              eq_trials e = trials /\ eq_tests e = tests
   | Err er => snd r = Err er
@@ -821,43 +726,79 @@ Proof.
   intros Hv. cbv zeta. unfold equation_new. rewrite forallb_is_ref_map, refs_of_map_IRef. simpl.
   pose proof (eq_loop_normalise trials refs h Hv) as K.
   destruct (normalise trials (map (get h) refs)) as [vals|er].
-  - destruct K as (h2 & out & E & R & _). rewrite E. simpl.
+  - destruct K as (h2 & out & E & R & V). rewrite E. simpl.
     eexists. exists out. repeat split; auto.
   - destruct (eq_loop trials h refs) as [h2 [o|e']]; simpl in *; congruence.
 Qed.
 
-(* ----------------------------------------------- re-use of one object by two equations *)
-(* a later constructor call does not disturb what an earlier equation holds, provided it
-   is not given the same objects again - or gives their unknowns the same positions *)
-Theorem later_call_keeps trials2 h1 refs2 out1 :
-  Forall (fun r => r < length h1) out1 ->
-  (forall r b, In r out1 -> nth_error h1 r = Some b -> ~ In r refs2 \/ stable trials2 b) ->
-  read (fst (eq_loop trials2 h1 refs2)) out1 = read h1 out1.
+(* ------------------------------------------- a constructor call changes no existing object *)
+(* whatever the arguments and whatever the verdict: every object that exists when the
+   constructor is called - the given conditions, the conditions held by earlier equations -
+   has the same value afterwards *)
+Theorem equation_new_extends h lhs rhs trials tests bc :
+  exists ext, fst (equation_new h lhs rhs trials tests bc) = h ++ ext.
 Proof.
-  intros Hv Hc. unfold read. apply map_ext_in. intros r Hr.
-  rewrite Forall_forall in Hv. specialize (Hv r Hr).
-  rewrite (nth_error_get h1 r Hv). apply eq_loop_preserve; [now apply nth_error_get|].
-  apply (Hc r); auto. now apply nth_error_get.
+  unfold equation_new.
+  destruct lhs as [a|a|a]; try (exists []; now rewrite app_nil_r).
+  destruct rhs as [l|l|l]; try (exists []; now rewrite app_nil_r).
+  destruct bc as [|[r|]|items]; try (exists []; now rewrite app_nil_r).
+  - destruct (eq_loop_extends trials [r] h) as [ext E]. exists ext.
+    destruct (eq_loop trials h [r]) as [h2 [out|er]]; simpl in *; exact E.
+  - destruct (negb (forallb is_ref items)); [exists []; now rewrite app_nil_r|].
+    destruct (eq_loop_extends trials (refs_of items) h) as [ext E]. exists ext.
+    destruct (eq_loop trials h (refs_of items)) as [h2 [out|er]]; simpl in *; exact E.
 Qed.
 
-(* without that proviso it does: the single-face condition below is shared by two
-   equations whose trial functions are listed in different orders; after the second
-   call the first equation reads position 1 where it had 0 *)
+Theorem constructor_call_keeps h lhs rhs trials tests bc refs :
+  Forall (fun r => r < length h) refs ->
+  read (fst (equation_new h lhs rhs trials tests bc)) refs = read h refs.
+Proof.
+  intros Hv. destruct (equation_new_extends h lhs rhs trials tests bc) as [ext ->].
+  unfold read. apply map_ext_in. intros r Hr. rewrite Forall_forall in Hv.
+  now rewrite nth_error_app1 by (now apply Hv).
+Qed.
+
+(* two equations from the same condition objects: the first one's bc, re-read after the
+   second call, is what it was - and so are the given conditions *)
+Theorem shared_condition_safe h a1 l1 a2 l2 trials1 tests1 trials2 tests2 refs1 bc2 :
+  Forall (fun r => r < length h) refs1 ->
+  let r1 := equation_new h (FBilinear a1) (FLinear l1) trials1 tests1 (AList (map IRef refs1)) in
+  let r2 := equation_new (fst r1) (FBilinear a2) (FLinear l2) trials2 tests2 bc2 in
+  read (fst r2) refs1 = read h refs1 /\
+  forall e1 out1, snd r1 = Ok e1 -> eq_bc e1 = Some out1 ->
+    read (fst r2) out1 = read (fst r1) out1.
+Proof.
+  intros Hv. cbv zeta. split.
+  - rewrite constructor_call_keeps.
+    + now apply constructor_call_keeps.
+    + destruct (equation_new_extends h (FBilinear a1) (FLinear l1) trials1 tests1 (AList (map IRef refs1))) as [ext ->].
+      eapply Forall_impl; [|exact Hv]. intros r Hr. rewrite app_length. simpl in Hr. lia.
+  - intros e1 out1 H1 Hbc.
+    pose proof (equation_new_normalises h a1 l1 trials1 tests1 refs1 Hv) as K. cbv zeta in K.
+    destruct (normalise trials1 (map (get h) refs1)) as [vals|er].
+    + destruct K as (e & out & S1 & B & _ & V & _). rewrite H1 in S1. inversion S1; subst e.
+      rewrite Hbc in B. inversion B; subst out.
+      apply constructor_call_keeps. eapply Forall_impl; [|exact V]. intros k [_ Hk]. exact Hk.
+    + rewrite H1 in K. discriminate.
+Qed.
+
+(* ------------------------------------------------------------ before commit c2083c1 *)
+(* The loop that wrote the position into the given object did not have this property: the
+   single-face condition below is shared by two calls whose trial functions are listed in
+   different orders; after the second call the first result reads position 1 where it had 0 *)
 Definition hz_u := mkFn 0 0 "u" false 2.
 Definition hz_p := mkFn 1 1 "p" true 2.
 Definition hz_face := mkFace 0 "A_\Gamma_1" "A" 0%Z (-1)%Z.
 Definition hz_store : store := [obj (essential_new (EFun hz_u) "0" (BFace hz_face) None None)].
 
-Theorem shared_condition_refuted :
-  exists h trials1 trials2 tests1 tests2 bc,
-    let r1 := equation_new h (FBilinear 0) (FLinear 1) trials1 tests1 bc in
-    let r2 := equation_new (fst r1) (FBilinear 2) (FLinear 3) trials2 tests2 bc in
-    exists e1 e2 out1, snd r1 = Ok e1 /\ snd r2 = Ok e2 /\ eq_bc e1 = Some out1 /\
-      read (fst r2) out1 <> read (fst r1) out1.
+Theorem shared_condition_before_fix_refuted :
+  exists h trials1 trials2 refs,
+    let r1 := eq_loop_before_fix trials1 h refs in
+    let r2 := eq_loop_before_fix trials2 (fst r1) refs in
+    exists out1, snd r1 = Ok out1 /\ read (fst r2) out1 <> read (fst r1) out1.
 Proof.
-  exists hz_store, [hz_u; hz_p], [hz_p; hz_u], [hz_u; hz_p], [hz_p; hz_u], (AList [IRef 0]).
-  cbv zeta. eexists. eexists. eexists. split; [reflexivity|]. split; [reflexivity|].
-  split; [reflexivity|]. vm_compute. discriminate.
+  exists hz_store, [hz_u; hz_p], [hz_p; hz_u], [0].
+  cbv zeta. eexists. split; [reflexivity|]. vm_compute. discriminate.
 Qed.
 
 (* ------------------------------------------------ boolean well-formedness of a face table *)
